@@ -293,7 +293,10 @@ fn rand_cr(r: &mut Rng, odd: bool) -> CurrencyAndExchangeRate {
         };
         CurrencyAndExchangeRate::rq_new(cur, PosDecimal::try_from(one).unwrap())
     } else {
-        let rate = if r.chance(60) {
+        let rate = if r.chance(8) {
+            // a foreign currency at par: the rate 1 (or 1.0, 1.00) is still an explicit rate
+            PosDecimal::try_from(match r.below(3) { 0 => mk_dec(1, 0), 1 => mk_dec(10, 1), _ => mk_dec(100, 2) }).unwrap()
+        } else if r.chance(60) {
             PosDecimal::try_from(Decimal::new(r.range(1, 30000), 4)).unwrap()
         } else {
             rand_pos(r)
